@@ -7,9 +7,13 @@ Local Open Scope N_scope.
 
 (** [BD]: digest of a whole message. variant (224/256/384/512), length, message, digest.
     [BH]: through hook H2: variant, chaining value (8 words big-endian, as one byte string),
-    t0, t1, buffered bytes, tail, digest of (set_state; update tail; finalize). *)
+    t0, t1, buffered bytes, tail, digest of (set_state; update tail; finalize).
+    [BU]: message given in parts (length, literal) (a single literal is limited to ~3000 bytes
+    by coqc's number parser); oneshot = true: the implementation hashed the concatenation with
+    one [update]; false: one [update] call per part. *)
 Inductive bcase :=
 | BD (variant : N) (len : N) (msg : N) (digest : N)
+| BU (variant : N) (oneshot : bool) (parts : list (N * N)) (digest : N)
 | BH (variant : N) (h : N) (t0 t1 : N) (blen : N) (buffered : N) (tlen : N) (tail : N) (digest : N).
 
 Definition spec_of (v : N) : Spec.Blake.variant :=
@@ -23,6 +27,11 @@ Definition model_from (v : N) :=
   else if v =? 256 then digest_from put_block32 32 4 true 32
   else if v =? 384 then digest_from put_block64 64 8 false 48
   else digest_from put_block64 64 8 true 64.
+Definition model_parts (v : N) : list (list N) -> option (list N) :=
+  if v =? 224 then digest_parts put_block32 32 4 false BLAKE224_IV 28
+  else if v =? 256 then digest_parts put_block32 32 4 true BLAKE256_IV 32
+  else if v =? 384 then digest_parts put_block64 64 8 false BLAKE384_IV 48
+  else digest_parts put_block64 64 8 true BLAKE512_IV 64.
 Definition wb_of (v : N) : nat := if v <=? 256 then 4%nat else 8%nat.
 Definition out_of (v : N) : N := v / 8.
 
@@ -40,6 +49,11 @@ Definition eval_case (c : bcase) : option (list N) * list N * list N :=
   | BD v len msg dg =>
       let m := B len msg in
       (model_of v m, Spec.Blake.hash (spec_of v) m, B (out_of v) dg)
+  | BU v oneshot parts dg =>
+      let ps := map (fun p => B (fst p) (snd p)) parts in
+      let m := concat ps in
+      ((if oneshot then model_of v m else model_parts v ps),
+       Spec.Blake.hash (spec_of v) m, B (out_of v) dg)
   | BH v h t0 t1 blen buffered tlen tail dg =>
       let hw := h_words v h in
       let b := B blen buffered in let tl := B tlen tail in
